@@ -78,7 +78,7 @@ type bareRes struct {
 
 // bare evaluates the unmodified program text directly (no rewrite).
 func (st *semState) bare(input any, p string) (res bareRes) {
-	ctx, cancel := context.WithTimeout(context.Background(), 10*time.Second)
+	ctx, cancel := context.WithTimeout(context.Background(), 30*time.Second)
 	defer cancel()
 	pv, _ := core.Protect(func() {
 		it, err := st.s.I.Eval(ctx, input, p, interp.EvalOpts{})
@@ -287,7 +287,7 @@ func cliArgs(p string, mode string) []string {
 // observed to be reproducible; the verdict is then inconclusive, never an alarm)
 // is abandoned after a generous limit.
 func (st *semState) cli(p string, mode string) (fqrun.Result, bool) {
-	ctx, cancel := context.WithTimeout(context.Background(), 20*time.Second)
+	ctx, cancel := context.WithTimeout(context.Background(), 60*time.Second)
 	defer cancel()
 	ch := make(chan fqrun.Result, 1)
 	go func() {
@@ -296,7 +296,7 @@ func (st *semState) cli(p string, mode string) (fqrun.Result, bool) {
 	select {
 	case res := <-ch:
 		return res, ctx.Err() != nil
-	case <-time.After(40 * time.Second):
+	case <-time.After(90 * time.Second):
 		if f := os.Getenv("VERIF_C11_DUMP"); f != "" {
 			buf := make([]byte, 1<<20)
 			n := runtime.Stack(buf, true)
@@ -327,7 +327,7 @@ func (st *semState) check(it item, mode string, verbose bool, capture bool) []vi
 	if timedOut {
 		if st.r != nil {
 			st.r.Count("sem_cli_run_did_not_return", 1)
-			st.r.Inconclusive(fmt.Sprintf("%q (%s): command line run did not finish in 20s", p, mode))
+			st.r.Inconclusive(fmt.Sprintf("%q (%s): command line run did not finish in 60s", p, mode))
 		}
 		return nil
 	}
@@ -478,8 +478,8 @@ func runCapture(r *core.Run, st *semState, modes []string) bool {
 	if r.ShardIdx == 0 {
 		r.Extra("capture_set_size", len(caps))
 		r.Extra("capture_names", captureNames)
-		r.Section("semantic:capture-set:" + strings.Join(modes, "+"))
 	}
+	sectionDone(r, "semantic:capture-set:"+strings.Join(modes, "+"))
 	r.Logf("semantic capture set: %d programs (this shard)", ncap)
 	return true
 }
@@ -528,9 +528,7 @@ func runSemantic(r *core.Run, st *semState, levels []semLevel) bool {
 			r.NotExhaustive("deadline: semantic level " + l.name + " (" + strings.Join(l.modes, ",") + ") not finished")
 			return false
 		}
-		if r.ShardIdx == 0 {
-			r.Section("semantic:" + l.name + ":" + strings.Join(l.modes, "+"))
-		}
+		sectionDone(r, "semantic:"+l.name+":"+strings.Join(l.modes, "+"))
 		r.Logf("semantic %s %v: runs=%d", l.name, l.modes, n)
 	}
 	return true
